@@ -223,9 +223,13 @@ def predicates(q, tau0, tqs):
             if np.abs(U[0] - Q[-1]).max() > 1e-9 * angle:
                 bad.append(('arb_t(tau)', 'c02-arb-tau-value', 'U(tau) != total propagator'))
         except IndexError as e:
-            bad.append(('arb_t(tau)', 'c02-tau-exceeds-t-last',
-                        'propagator_at_arb_t([pulse.tau]) raises IndexError (%s): tau (%s) = %r > t[-1] = %r'
-                        % (e, nm, val, t[-1])))
+            if val > t[-1]:        # the two branches of the tau property disagree in floating point
+                bad.append(('arb_t(tau)', 'c02-tau-exceeds-t-last',
+                            'propagator_at_arb_t([pulse.tau]) raises IndexError (%s): tau (%s) = %r > t[-1] = %r'
+                            % (e, nm, val, t[-1])))
+            else:
+                bad.append(('arb_t(tau)', 'c02-arb-tau-indexerror',
+                            'propagator_at_arb_t([tau]) raises IndexError (%s) although tau = %r <= t[-1] = %r' % (e, val, t[-1])))
     # arbitrary times
     if len(tqs):
         U = q.propagator_at_arb_t(tqs)
@@ -310,8 +314,12 @@ def observe(r, q, with_queries=True):
 
 def one_case(r, kind, thorough, spec=None):
     q, info = build(r, kind, thorough, spec)
-    obs = observe(r, q, with_queries=True)
-    bad = predicates(q, obs['tau0'], obs['tqs'])
+    try:
+        obs = observe(r, q, with_queries=True)
+        bad = predicates(q, obs['tau0'], obs['tqs'])
+    except Exception as e:      # noqa: the implementation raised on an input of the property's domain
+        import traceback
+        return q, info, None, [('exception', 'c02-exception', 'implementation raised %r (%s)' % (e, traceback.format_exc().strip().split('\n')[-3].strip()))]
     return q, info, obs, bad
 
 
@@ -328,10 +336,10 @@ def run(ctx):
         tg = info['tags']
         key = '%s/%s/%s/d%s/t%d/diag%d' % (kind, tg.get('amp'), tg.get('dt'), q.d, tg['t_first'], tg['diag_first'])
         classes[key] = classes.get(key, 0) + 1
-        if kind != 'long':             # long pulses: predicates only (t / tau / time queries); model evaluation stays small
+        if kind != 'long' and obs is not None:             # long pulses: predicates only (t / tau / time queries); model evaluation stays small
             cases.append((q, info, obs, inp))
         if len(samples) < 6:
-            samples.append(dict(tags=tg, dt=[float(x) for x in q.dt], tau=float(obs['tau1']), n_queries=int(len(obs['tqs']))))
+            samples.append(dict(tags=tg, dt=[float(x) for x in q.dt], tau=float(np.sum(q.dt)), n_queries=0 if obs is None else int(len(obs['tqs']))))
     defs = [('case%d' % i, coq_case('case%d' % i, q, info, obs, False)) for i, (q, info, obs, _) in enumerate(cases)]
     res = ctx.eval_tallies(HEADER, defs, per_file=4)
     redo = [i for i, x in enumerate(res) if x is None or x[1] > 0]
